@@ -359,6 +359,8 @@ func runC10(c *core.Ctx) {
 		return true
 	})
 	c10InterfaceArguments(c)
+	c10MetaArguments(c)
+	c10StructFieldArguments(c)
 	c.R.Bound = fmt.Sprintf("base documents + %d mutations; one defect at every selection-set site (quick: every fourth defect kind on the mutated documents); 4 bad directives on every fragment definition and operation, fragments after and before the operations (quick: base documents); arguments only an implementer declares, given through the interface (6 request shapes)", k)
 	if !completed {
 		c.Cap("deadline reached")
@@ -592,6 +594,161 @@ func c10InterfaceArguments(c *core.Ctx) {
 			c.Violation("resolver-invoked", attrs, detail)
 		default:
 			c.Outcome("ok-rejected")
+		}
+	}
+}
+
+// ---- arguments the META-fields do not define: __typename and __schema take none, __type takes name. On the query root, below
+// objects, and for the fields of the introspection types themselves. An error naming the argument, nothing under the key.
+func c10MetaArguments(c *core.Ctx) {
+	const sdl = c10PetSDL
+	cases := []struct {
+		q     string
+		key   string // where no value may appear: "a.b" path of response keys
+		valid bool
+	}{
+		{`{ dfx: __typename(zz: 1) }`, "dfx", false}, {`{ dog { dfx: __typename(zz: true) } }`, "dog.dfx", false}, {`{ pet { dfx: __typename(zz: "s") } }`, "pet.dfx", false},
+		{`{ dfx: __schema(zz: 1) { queryType { name } } }`, "dfx", false},
+		{`{ dfx: __type(zz: "Dog") { name } }`, "dfx", false}, {`{ dfx: __type(name: "Dog", zz: 1) { name } }`, "dfx", false}, {`{ dfx: __type(zz: 1, name: "Dog") { name } }`, "dfx", false},
+		{`{ __schema { dfx: types(zz: 1) { name } } }`, "__schema.dfx", false}, {`{ __type(name: "Dog") { dfx: name(zz: 1) } }`, "__type.dfx", false},
+		{`{ __type(name: "Dog") { dfx: fields(zz: true) { name } } }`, "__type.dfx", false}, {`{ __type(name: "Dog") { fields { dfx: name(zz: 1) } } }`, "", false},
+		{`{ __type(name: "Dog") { name fields(includeDeprecated: true) { name } } t: __typename __schema { queryType { name } } }`, "", true},
+	}
+	for i, cs := range cases {
+		if !c.OwnsIdx(1<<42 + int64(i)) {
+			continue
+		}
+		c.Eval()
+		c.R.Distinct++
+		c.Nontrivial()
+		var log []string
+		root := ggql.NewRoot(&c10Pet{"Query", &log})
+		if err := root.ParseString(sdl); err != nil {
+			panic(core.EngineError{Msg: "C10 meta-argument schema refused: " + err.Error()})
+		}
+		var res map[string]interface{}
+		pi := core.Safe(func() { res = root.ResolveString(cs.q, "", nil) })
+		detail := map[string]interface{}{"sdl": sdl, "query": cs.q, "response": res}
+		attrs := map[string]string{"defect": "undeclared-argument-on-a-meta-field", "container": "meta", "strategy": "RS"}
+		if pi != nil {
+			c.Violation("panic", map[string]string{"site": pi.Site, "class": pi.Class, "defect": attrs["defect"], "strategy": "RS"}, detail)
+			continue
+		}
+		named := false
+		if es, ok := res["errors"].([]interface{}); ok {
+			for _, e := range es {
+				if em, ok := e.(map[string]interface{}); ok && strings.Contains(fmt.Sprint(em["message"]), "zz") {
+					named = true
+				}
+			}
+		}
+		var at interface{} = res["data"]
+		if cs.key != "" {
+			for _, k := range strings.Split(cs.key, ".") {
+				m, _ := at.(map[string]interface{})
+				at = m[k]
+			}
+		}
+		switch {
+		case cs.valid && res["errors"] != nil:
+			detail["diff"] = "a valid request was answered with an error"
+			c.Violation("valid-refused", attrs, detail)
+		case cs.valid:
+			c.Outcome("ok-valid")
+		case res["errors"] == nil:
+			detail["diff"] = "no error for an argument the meta-field does not define"
+			c.Outcome("missing-error")
+			c.Violation("missing-error", attrs, detail)
+		case !named:
+			detail["diff"] = "no error names the argument zz"
+			c.Violation("offender-not-named", attrs, detail)
+		case cs.key != "" && at != nil:
+			detail["diff"] = "a value appears under the key of the refused selection"
+			c.Violation("data-under-refused-key", attrs, detail)
+		default:
+			c.Outcome("rejected-as-required")
+		}
+	}
+}
+
+// ---- fields that declare arguments and are bound, by reflection, to plain STRUCT FIELDS of the Go type (the arguments cannot be
+// handed to anything, they are declared all the same): a required argument left out, null or of another kind is an error and no
+// value appears; undeclared arguments are refused; the valid request is answered.
+type C10SFQuery struct {
+	Plain string
+	Need  string
+	Opt   string
+	Kids  []*C10SFQuery
+}
+type c10SFRoot struct{ Query *C10SFQuery }
+
+func c10StructFieldArguments(c *core.Ctx) {
+	const sdl = "type Query { plain: String need(x: Int!): String opt(y: Int, e: Boolean = true): String kids: [Query] }\n"
+	cases := []struct {
+		q, key, names string
+		valid         bool
+	}{
+		{`{ dfx: need }`, "dfx", "x", false}, {`{ dfx: need(x: null) }`, "dfx", "x", false}, {`{ dfx: need(x: "a") }`, "dfx", "", false}, {`{ dfx: need(x: 1.5) }`, "dfx", "", false},
+		{`{ dfx: opt(y: "s") }`, "dfx", "", false}, {`{ dfx: opt(e: 3) }`, "dfx", "", false}, {`{ dfx: need(x: 1, zz: 2) }`, "dfx", "zz", false}, {`{ dfx: plain(zz: 2) }`, "dfx", "zz", false},
+		{`{ kids { dfx: need } }`, "", "x", false}, {`query Q($v: Int) { dfx: need(x: $v) }`, "dfx", "", false},
+		{`{ need(x: 1) opt opt2: opt(y: 2, e: false) plain kids { need(x: 2) } }`, "", "", true},
+	}
+	for i, cs := range cases {
+		if !c.OwnsIdx(1<<41 + int64(i)) {
+			continue
+		}
+		c.Eval()
+		c.R.Distinct++
+		c.Nontrivial()
+		root := ggql.NewRoot(&c10SFRoot{Query: &C10SFQuery{Plain: "p", Need: "n", Opt: "o", Kids: []*C10SFQuery{{Plain: "kp", Need: "kn", Opt: "ko"}}}})
+		if err := root.ParseString(sdl); err != nil {
+			panic(core.EngineError{Msg: "C10 struct-field schema refused: " + err.Error()})
+		}
+		var res map[string]interface{}
+		pi := core.Safe(func() { res = root.ResolveString(cs.q, "", nil) })
+		detail := map[string]interface{}{"sdl": sdl, "query": cs.q, "response": res}
+		attrs := map[string]string{"defect": "argument-of-a-field-bound-to-a-struct-field", "container": "object", "strategy": "FS"}
+		if pi != nil {
+			c.Violation("panic", map[string]string{"site": pi.Site, "class": pi.Class, "defect": attrs["defect"], "strategy": "FS"}, detail)
+			continue
+		}
+		named := cs.names == ""
+		if es, ok := res["errors"].([]interface{}); ok {
+			for _, e := range es {
+				if em, ok := e.(map[string]interface{}); ok && strings.Contains(fmt.Sprint(em["message"]), cs.names) {
+					named = true
+				}
+			}
+		}
+		var at interface{}
+		if cs.key != "" {
+			m, _ := res["data"].(map[string]interface{})
+			at = m[cs.key]
+		}
+		switch {
+		case cs.valid && res["errors"] != nil:
+			detail["diff"] = "a valid request was answered with an error"
+			c.Violation("valid-refused", attrs, detail)
+		case cs.valid:
+			want := map[string]interface{}{"need": "n", "opt": "o", "opt2": "o", "plain": "p", "kids": []interface{}{map[string]interface{}{"need": "kn"}}}
+			if dd := world.Diff(world.Canon(want), world.Canon(res["data"]), ""); dd != "" {
+				detail["diff"] = dd
+				c.Violation("siblings-diff", attrs, detail)
+			} else {
+				c.Outcome("ok-valid")
+			}
+		case res["errors"] == nil:
+			detail["diff"] = "no error for a required argument left out / an argument of another kind / an undeclared argument"
+			c.Outcome("missing-error")
+			c.Violation("missing-error", attrs, detail)
+		case !named:
+			detail["diff"] = "no error names " + cs.names
+			c.Violation("offender-not-named", attrs, detail)
+		case at != nil:
+			detail["diff"] = "a value appears under the key of the refused selection"
+			c.Violation("data-under-refused-key", attrs, detail)
+		default:
+			c.Outcome("rejected-as-required")
 		}
 	}
 }
